@@ -35,9 +35,23 @@ def gen_strings(rng):
     return out
 
 
+def limit_sweep(rng):
+    """every distinct-count k = 1..17 against the limits k-1, k, k+1 and limits above the built-in 15 (16, 20, 100)"""
+    for k in range(1, 18):
+        for lim in sorted({max(k - 1, 0), k, k + 1, 16, 20, 100}):
+            strings = ["w%dq" % i for i in range(k)]
+            rng.shuffle(strings)
+            yield strings, lim
+
+
 def correspondence(ctx, batch):
     rng = ctx.rng("corr")
     registry = stages.make_registry()
+    for strings, lim in limit_sweep(rng):
+        job = common.gen_job(rng)
+        job.update({"maxLit": lim, "layout": "flat", "preamble": None})
+        stages.stage_render(batch, [("Root", [{"f": s} for s in strings])], registry, [], [job])
+        ctx.count("limit_sweep")
     for _ in range(ctx.n(250, 4000)):
         strings = gen_strings(rng)
         samples = [{"f": s} for s in strings]
@@ -104,10 +118,14 @@ def check_case(strings, with_null, job, registry):
 def falsify(ctx):
     rng = ctx.rng("fals")
     registry = stages.make_registry()
-    for _ in range(ctx.n(400, 8000)):
-        strings = gen_strings(rng)
+    sweep = list(limit_sweep(rng))
+    for i in range(len(sweep) + ctx.n(400, 8000)):
         job = common.gen_job(rng)
-        job.update({"maxLit": rng.randint(0, 16), "layout": "flat", "preamble": None, "postInit": False})
+        if i < len(sweep):
+            strings, lim = sweep[i]
+        else:
+            strings, lim = gen_strings(rng), rng.choice(list(range(17)) + [20, 100])
+        job.update({"maxLit": lim, "layout": "flat", "preamble": None, "postInit": False})
         with_null = rng.random() < 0.2
         try:
             hit = check_case(strings, with_null, job, registry)
